@@ -214,6 +214,8 @@ def _with_frozen(rng, cases):
     for c in cases:
         if isinstance(c, dict) and "layers" in c:
             c["frozen"] = rng.choice([None, None, None, "first", "first", "all"])
+            if c.get("stream") in ("bp", "slope"):
+                c["bp_ol"] = rng.random() < 0.4
     return cases
 
 
@@ -358,7 +360,10 @@ def run_impl(case):
     # row-wise assumption on the user's model (hypothesis of the theorems): a batch is evaluated sample by sample
     res["rowwise"] = bool(np.array_equal(np.asarray(model(xs)), np.concatenate([np.asarray(model(xs[i:i + 1])) for i in range(n)])))
     if case["stream"] in ("bp", "slope"):
-        expl = getattr(xa, case["method"])(model, batch_size=case["bs"], reducer=None)
+        # bp_ol: the same explainer requested through output_layer = the model's own last layer (same function; the
+        # white-box reconfiguration path hands the explainer a model that SHARES its layers with the user's)
+        okw = dict(output_layer=-1) if case.get("bp_ol") else {}
+        expl = getattr(xa, case["method"])(model, batch_size=case["bs"], reducer=None, **okw)
         out = np.asarray(expl.explain(xs, ts))
         if list(out.shape) != [n] + case["shape"]:
             raise AssertionError(f"explain returned shape {out.shape}")
